@@ -574,6 +574,71 @@ func runC18(p *core.Prog, r *core.Report) {
 	r.MinInstances("C18.R1", 13)
 	r.MinInstances("C18.R2", 6)
 	r.MinInstances("C18.R3", 3)
+	r.Guard("C18.R4", "fast-codec/elements", "every item exactly once", func() {
+		// MarshalFast: the i-th slot receives the range value and i advances by one per item
+		mf := p.Func(pkgPBOut, "Map.MarshalFast")
+		okSlot := false
+		core.Instrs(mf, func(in ssa.Instruction) {
+			st, ok := in.(*ssa.Store)
+			if !ok {
+				return
+			}
+			ia, ok := st.Addr.(*ssa.IndexAddr)
+			if !ok {
+				return
+			}
+			ph, ok := ia.Index.(*ssa.Phi)
+			if !ok {
+				return
+			}
+			// back edge = phi + 1
+			inc := false
+			for _, e := range ph.Edges {
+				if bo, ok := e.(*ssa.BinOp); ok && bo.Op == token.ADD && bo.X == ssa.Value(ph) {
+					if k, ok := bo.Y.(*ssa.Const); ok && k.Int64() == 1 {
+						inc = true
+					}
+				}
+			}
+			// the value is the map range's value
+			fromRange := false
+			if ex, ok := st.Val.(*ssa.Extract); ok && ex.Index == 2 {
+				if _, ok := ex.Tuple.(*ssa.Next); ok {
+					fromRange = true
+				}
+			}
+			if inc && fromRange {
+				okSlot = true
+			}
+		})
+		r.Check(okSlot, "C18.R4", "Map.MarshalFast/slots", "each value of m.Kv is stored into its own slot of the array (slot index advancing by one per item)", "slot index is not a counter incremented once per item, or the stored value is not the range value", p.Pos(mf.Pos()))
+		// Array decoder: each element is decoded into an Item allocated for it
+		af := p.Func(pkgPBOut, "Array.UnmarshalVTNoAlloc")
+		itemT := p.Named(pkgPBOut, "Item")
+		okFresh := false
+		core.Instrs(af, func(in ssa.Instruction) {
+			c, ok := in.(*ssa.Call)
+			if !ok {
+				return
+			}
+			b, ok := c.Call.Value.(*ssa.Builtin)
+			if !ok || b.Name() != "append" {
+				return
+			}
+			if core.SliceReachesPred(c.Call.Args[1], func(v ssa.Value) bool {
+				al, ok := v.(*ssa.Alloc)
+				if !ok || !al.Heap {
+					return false
+				}
+				pt, ok := al.Type().Underlying().(*types.Pointer)
+				return ok && types.Identical(pt.Elem(), itemT) && al.Block() == c.Block()
+			}, 2) {
+				okFresh = true
+			}
+		})
+		r.Check(okFresh, "C18.R4", "Array.UnmarshalVTNoAlloc/fresh-item", "every element of the array is decoded into an Item allocated for that element (no reuse of the previous one)", "the appended element is not a new Item of that iteration", p.Pos(af.Pos()))
+		checkNoSilentTruncation(p, r, "C18.R4", []loopSite{{pkgPBOut, "Map.MarshalFast", nil}, {pkgPBOut, "Map.UnmarshalFast", nil}})
+	})
 	r.MinInstances("C18.R4", 4)
 }
 
